@@ -154,3 +154,24 @@ package phase5
 //@   requires[|C01] vn != nil && vl != nil && len(vl.Nodes) >= 2 && 0 <= vn.LayerPos && vn.LayerPos < len(vl.Nodes)
 //@ func flatPolyline
 //@   requires[|C01] r.Edge != nil && r.From != nil && r.To != nil && len(r.ns) >= 1 && r.ns[0] != nil && r.ns[len(r.ns)-1] != nil
+
+// ---------------------------------------------------------------------------
+// reduceForward (C05, C06, C01): following the chain of helper nodes from a real source, the route lists the source,
+// every helper node in between and the real node the chain ends at; the edge now ends there; the route's first and
+// last node are the edge's two ends (possibly swapped so that the upper one comes first).
+// helpersChain: every virtual node has exactly one out-edge with a target (what breakEdge builds).
+//@ spec helpersChain() bool =
+//@   forall n *Node :: n != nil && n.IsVirtual ==> len(n.Out) == 1 && n.Out[0] != nil && n.Out[0].From == n && n.Out[0].To != nil && n.Out[0].To != n
+//@ func reduceForward
+//@   requires g != nil && e != nil && e.From != nil && e.To != nil && !e.From.IsVirtual && helpersChain()
+//@   requires[sep] forall n *Node, m *Node :: len(n.Out) == 0 || (allocatedArr(n.Out) && arr(n.Out) != arr(m.In) && arr(n.Out) != arr(g.Edges))
+//@   ensures[ends|C05,C06] len(result) >= 2 && result[0] != nil && result[len(result)-1] != nil
+//@       && ((result[0] == e.From && result[len(result)-1] == e.To) || (result[0] == e.To && result[len(result)-1] == e.From))
+//@       && e.From == old(e.From) && !e.To.IsVirtual
+//@   ensures[inner|C05,C06] forall k int :: 0 < k && k < len(result) - 1 ==> result[k] != nil && result[k].IsVirtual
+//@   loop for(e.To.IsVirtual)#1
+//@     invariant forall k int :: 0 < k && k < len(ns) ==> ns[k] != nil && ns[k].IsVirtual
+//@     invariant e.From == old(e.From) && e.To != nil && helpersChain() && len(ns) >= 1 && ns[0] == e.From
+//@     invariant arr(ns) == 0 || !old(allocatedArr(now(ns)))
+//@     invariant forall n *Node, m *Node :: len(n.Out) == 0 || (allocatedArr(n.Out) && arr(n.Out) != arr(m.In) && arr(n.Out) != arr(g.Edges))
+//@     invariant forall n *Node, k int :: 0 <= k && k < len(n.Out) ==> n.Out[k] == old(n.Out[k])
